@@ -5,7 +5,7 @@ PROP = {
     "n_quick": 4000,
     "n_thorough": 400000,
     "trusted": [
-        "hook hsmsss/verif_export.go: scripted TransportRuntime driving the real runLinktest loop (interval 1ns, so suppression rule 1 is exercised only by the model and by e2e timelines)",
+        "hook hsmsss/verif_export.go: scripted TransportRuntime driving the real runLinktest loop: untimed runs (interval 1ns; rules 2, 3 and the final re-check scripted) and timed runs (interval 3ms; suppression rule 1 scripted by planting an own-send stamp inside the window; runs in which the scheduler delayed the loop past the planted window are detected by the hook and discarded, counted in the evidence)",
     ],
     "assumptions": [
         "the loop reads its environment exactly at the points the obs record names (probe outcome, receive stamp and in-flight count at the failure snapshot and at the final re-check)",
@@ -29,6 +29,6 @@ def custom(run, tier):
 
 MANIFEST = {
     "text": 'Coq theorems over all observation histories, thresholds >= 1 and suppression on/off (dead peer dropped at exactly the threshold-th timeout; every disconnect justified by threshold dead, quiet probes plus a dead final re-check; probe rule). The two reducers are regenerated from the Go source on every run and bridged to the model; the loop body is tied by running the real runLinktest against scripted histories and comparing per-iteration behaviour with the extracted model.',
-    "note": 'Trusted: Coq kernel, translator, extraction, harness/hook. Timer precision and suppression rule 1 (idle < interval) are runtime/e2e only.',
+    "note": 'Trusted: Coq kernel, translator, extraction, harness/hook. Timer precision is runtime/e2e only; suppression rule 1 (idle < interval) is scripted in the timed runs of the real loop (own writes inside the window never forgive a counted timeout).',
     "technique": 'Rocq/Coq proof (induction over histories) + translator bridge + extracted-model differential',
 }
